@@ -71,7 +71,32 @@ def run_case(case):
         elif op["op"] == "remove":
             if not pop:
                 continue
-            a, _, _ = pop.pop(int(op["k"]) % len(pop))
+            ix = int(op["k"]) % len(pop)
+            if op.get("raw") and not grid and unregistered.get(id(pop[ix][0])):
+                # the agent leaves although the scheduler never saw one of its components (C03's open finding F3: the removal
+                # may raise). Whatever happens, the queries must agree with the environment: removed, or still listed in place.
+                a = pop[ix][0]
+                try:
+                    env.remove_agent(a.id)
+                except Exception:
+                    if [x.id for x in env] != [x.id for x, _, _ in pop]:
+                        raise Violation("failed-removal-altered-environment", f"{where}: remove_agent raised, yet the environment now holds "
+                                                                              f"{[x.id for x in env]} instead of {[x.id for x, _, _ in pop]}")
+                    labels.add("removal-raised-agent-still-listed")
+                    # the failed removal may have deregistered some components half-way: bring the scheduler back in line
+                    for c in list(a.components.values()):
+                        if not any(c is x for x in (model.systems[type(c)] or [])):
+                            model.systems.register_component(c)
+                    unregistered.pop(id(a), None)
+                    for c in stale.pop(id(a), []):
+                        if any(c is x for x in (model.systems[type(c)] or [])):
+                            model.systems.deregister_component(c)
+                    continue
+                pop.pop(ix)
+                unregistered.pop(id(a), None)
+                stale.pop(id(a), None)
+                continue
+            a, _, _ = pop.pop(ix)
             for c in unregistered.pop(id(a), []):           # make the scheduler's view consistent again before the agent leaves
                 if a[type(c)] is c:
                     model.systems.register_component(c)
@@ -185,7 +210,7 @@ def run_case(case):
 def strategy(tier):
     add = st.fixed_dictionaries({"op": st.just("add"), "mask": st.integers(0, 7), "tag": st.sampled_from([None, 0, 1, 1, 2, 7]),
                                  "akind": st.sampled_from(["agent", "agent", "agent", "agent", "nested-env", "crowd"])})
-    rem = st.fixed_dictionaries({"op": st.just("remove"), "k": st.integers(0, 7)})
+    rem = st.fixed_dictionaries({"op": st.just("remove"), "k": st.integers(0, 7), "raw": st.booleans()})
     retag = st.fixed_dictionaries({"op": st.just("retag"), "k": st.integers(0, 7), "tag": st.sampled_from([0, 1, 2, 7])})
     toggle = st.fixed_dictionaries({"op": st.just("toggle"), "k": st.integers(0, 140), "t": st.integers(0, 2), "paired": st.booleans()})
     q = st.fixed_dictionaries({"op": st.just("query"), "tmpl": st.lists(st.sampled_from([0, 0, 1, 1, 2, 3, 4]), max_size=3),
